@@ -14,7 +14,8 @@ use varpulis_runtime::event::Event;
 use varpulis_runtime::sequence::SequenceContext;
 
 #[derive(Clone, Debug, PartialEq)]
-enum Lit { I(i64), F(u64), S(String), B(bool), Null }
+enum Lit { I(i64), F(u64), S(String), B(bool), Null, /// only as a field value, never as a literal operand
+    Arr(Vec<Lit>) }
 
 #[derive(Clone, Debug, PartialEq)]
 enum Opd { Field(&'static str), Lit(Lit) }
@@ -23,8 +24,12 @@ enum Opd { Field(&'static str), Lit(Lit) }
 enum Op { Eq, Ne, Lt, Le, Gt, Ge }
 const OPS: [Op; 6] = [Op::Eq, Op::Ne, Op::Lt, Op::Le, Op::Gt, Op::Ge];
 
+/// the other comparison operators of the grammar
+#[derive(Clone, Copy, Debug, PartialEq)]
+enum Oth { In, NotIn, Is }
+
 #[derive(Clone, Debug, PartialEq)]
-enum Fx { Cmp(Op, Opd, Opd), Atom(Opd), And(Box<Fx>, Box<Fx>), Or(Box<Fx>, Box<Fx>), Not(Box<Fx>) }
+enum Fx { Cmp(Op, Opd, Opd), Other(Oth, Opd, Opd), Atom(Opd), And(Box<Fx>, Box<Fx>), Or(Box<Fx>, Box<Fx>), Not(Box<Fx>) }
 
 fn hex(b: &[u8]) -> String { b.iter().map(|x| format!("{:02x}", x)).collect() }
 
@@ -33,6 +38,7 @@ impl Lit {
         match self {
             Lit::I(n) => format!("I{}", n), Lit::F(b) => format!("F{:016x}", b), Lit::S(s) => format!("S{}", hex(s.as_bytes())),
             Lit::B(b) => if *b { "B1".into() } else { "B0".into() }, Lit::Null => "N".into(),
+            Lit::Arr(l) => format!("A({})", l.iter().map(|x| x.tok()).collect::<Vec<_>>().join(",")),
         }
     }
     fn vpl(&self) -> String {
@@ -42,22 +48,25 @@ impl Lit {
             Lit::S(s) => format!("\"{}\"", s),
             Lit::B(b) => format!("{}", b),
             Lit::Null => "null".into(),
+            Lit::Arr(_) => unreachable!("arrays are field values only"),
         }
     }
     fn ast(&self) -> Expr {
         match self {
             Lit::I(n) => Expr::Int(*n), Lit::F(b) => Expr::Float(f64::from_bits(*b)), Lit::S(s) => Expr::Str(s.clone()),
             Lit::B(b) => Expr::Bool(*b), Lit::Null => Expr::Null,
+            Lit::Arr(_) => unreachable!("arrays are field values only"),
         }
     }
     fn value(&self) -> Value {
         match self {
             Lit::I(n) => Value::Int(*n), Lit::F(b) => Value::Float(f64::from_bits(*b)), Lit::S(s) => Value::str(s),
             Lit::B(b) => Value::Bool(*b), Lit::Null => Value::Null,
+            Lit::Arr(l) => Value::array(l.iter().map(|x| x.value()).collect()),
         }
     }
     fn kind(&self) -> &'static str {
-        match self { Lit::I(_) => "int", Lit::F(_) => "float", Lit::S(_) => "str", Lit::B(_) => "bool", Lit::Null => "null" }
+        match self { Lit::I(_) => "int", Lit::F(_) => "float", Lit::S(_) => "str", Lit::B(_) => "bool", Lit::Null => "null", Lit::Arr(_) => "array" }
     }
 }
 
@@ -73,10 +82,17 @@ impl Op {
     fn ast(&self) -> BinOp { match self { Op::Eq => BinOp::Eq, Op::Ne => BinOp::NotEq, Op::Lt => BinOp::Lt, Op::Le => BinOp::Le, Op::Gt => BinOp::Gt, Op::Ge => BinOp::Ge } }
 }
 
+impl Oth {
+    fn tok(&self) -> &'static str { match self { Oth::In => "in", Oth::NotIn => "nin", Oth::Is => "is" } }
+    fn vpl(&self) -> &'static str { match self { Oth::In => "in", Oth::NotIn => "not in", Oth::Is => "is" } }
+    fn ast(&self) -> BinOp { match self { Oth::In => BinOp::In, Oth::NotIn => BinOp::NotIn, Oth::Is => BinOp::Is } }
+}
+
 impl Fx {
     fn tok(&self) -> String {
         match self {
             Fx::Cmp(op, l, r) => format!("cmp {} {} {}", op.tok(), l.tok(), r.tok()),
+            Fx::Other(op, l, r) => format!("oth {} {} {}", op.tok(), l.tok(), r.tok()),
             Fx::Atom(o) => format!("atom {}", o.tok()),
             Fx::And(a, b) => format!("and {} {}", a.tok(), b.tok()),
             Fx::Or(a, b) => format!("or {} {}", a.tok(), b.tok()),
@@ -87,6 +103,7 @@ impl Fx {
     fn vpl(&self) -> String {
         match self {
             Fx::Cmp(op, l, r) => format!("{} {} {}", l.vpl(), op.vpl(), r.vpl()),
+            Fx::Other(op, l, r) => format!("{} {} {}", l.vpl(), op.vpl(), r.vpl()),
             Fx::Atom(o) => o.vpl(),
             Fx::And(a, b) => format!("({}) and ({})", a.vpl(), b.vpl()),
             Fx::Or(a, b) => format!("({}) or ({})", a.vpl(), b.vpl()),
@@ -96,6 +113,7 @@ impl Fx {
     fn ast(&self) -> Expr {
         match self {
             Fx::Cmp(op, l, r) => Expr::Binary { op: op.ast(), left: Box::new(l.ast()), right: Box::new(r.ast()) },
+            Fx::Other(op, l, r) => Expr::Binary { op: op.ast(), left: Box::new(l.ast()), right: Box::new(r.ast()) },
             Fx::Atom(o) => o.ast(),
             Fx::And(a, b) => Expr::Binary { op: BinOp::And, left: Box::new(a.ast()), right: Box::new(b.ast()) },
             Fx::Or(a, b) => Expr::Binary { op: BinOp::Or, left: Box::new(a.ast()), right: Box::new(b.ast()) },
@@ -103,11 +121,11 @@ impl Fx {
         }
     }
     fn depth(&self) -> u32 {
-        match self { Fx::Cmp(..) | Fx::Atom(_) => 1, Fx::And(a, b) | Fx::Or(a, b) => 1 + a.depth().max(b.depth()), Fx::Not(a) => 1 + a.depth() }
+        match self { Fx::Cmp(..) | Fx::Other(..) | Fx::Atom(_) => 1, Fx::And(a, b) | Fx::Or(a, b) => 1 + a.depth().max(b.depth()), Fx::Not(a) => 1 + a.depth() }
     }
     fn fields(&self, out: &mut BTreeSet<&'static str>) {
         match self {
-            Fx::Cmp(_, l, r) => { for o in [l, r] { if let Opd::Field(f) = o { out.insert(*f); } } }
+            Fx::Cmp(_, l, r) | Fx::Other(_, l, r) => { for o in [l, r] { if let Opd::Field(f) = o { out.insert(*f); } } }
             Fx::Atom(o) => { if let Opd::Field(f) = o { out.insert(*f); } }
             Fx::And(a, b) | Fx::Or(a, b) => { a.fields(out); b.fields(out); }
             Fx::Not(a) => a.fields(out),
@@ -120,6 +138,7 @@ impl Fx {
                 let cls = match op { Op::Eq | Op::Ne => "eq", _ => "ord" };
                 format!("cmp-{}:{}-{}", cls, side(l), side(r))
             }
+            Fx::Other(op, ..) => format!("other:{}", op.tok()),
             Fx::Atom(_) => "atom".into(), Fx::And(..) => "and".into(), Fx::Or(..) => "or".into(), Fx::Not(..) => "not".into(),
         }
     }
@@ -145,11 +164,13 @@ fn value_pool(thorough: bool) -> Vec<Option<Lit>> {
         Some(Lit::F(F1)), Some(Lit::F(F1_5)), Some(Lit::F(F0_5_NEXT)), Some(Lit::F(F1_NEXT)), Some(Lit::F(NAN)),
         Some(Lit::S("a".into())), Some(Lit::S("m".into())), Some(Lit::S("z".into())),
         Some(Lit::B(true)), Some(Lit::B(false)),
+        Some(Lit::Arr(vec![Lit::I(1), Lit::S("a".into())])),
     ];
     if thorough {
         p.extend([Some(Lit::I(-1)), Some(Lit::I(9007199254740993)), Some(Lit::I(i64::MIN)),
                   Some(Lit::F(F0_5)), Some(Lit::F(0)), Some(Lit::F(NEG_ZERO)), Some(Lit::F(TINY)),
-                  Some(Lit::F(INF)), Some(Lit::F(TWO53)), Some(Lit::F(F2)), Some(Lit::S("".into())), Some(Lit::S("1".into())), Some(Lit::Null)]);
+                  Some(Lit::F(INF)), Some(Lit::F(TWO53)), Some(Lit::F(F2)), Some(Lit::S("".into())), Some(Lit::S("1".into())), Some(Lit::Null),
+                  Some(Lit::Arr(vec![])), Some(Lit::Arr(vec![Lit::F(F1), Lit::F(NAN)]))]);
     }
     p
 }
@@ -175,6 +196,12 @@ fn other_atoms() -> Vec<Fx> {
         v.push(Fx::Cmp(op, Opd::Lit(Lit::I(1)), Opd::Field("x")));
         v.push(Fx::Cmp(op, Opd::Field("x"), Opd::Field("y")));
         v.push(Fx::Cmp(op, Opd::Lit(Lit::F(F1_5)), Opd::Field("y")));
+    }
+    for op in [Oth::In, Oth::NotIn, Oth::Is] {
+        v.push(Fx::Other(op, Opd::Field("x"), Opd::Field("y")));
+        v.push(Fx::Other(op, Opd::Lit(Lit::S("a".into())), Opd::Field("y")));
+        v.push(Fx::Other(op, Opd::Lit(Lit::I(1)), Opd::Field("y")));
+        v.push(Fx::Other(op, Opd::Field("x"), Opd::Lit(Lit::S("ma".into()))));
     }
     v.push(Fx::Cmp(Op::Eq, Opd::Field("x"), Opd::Lit(Lit::Null)));
     v.push(Fx::Cmp(Op::Ne, Opd::Field("x"), Opd::Lit(Lit::Null)));
@@ -321,6 +348,10 @@ pub fn run(ctx: &mut Ctx, _name: &str) {
         (Fx::Or(Box::new(x(Lit::I(1), Op::Gt)), Box::new(Fx::Cmp(Op::Gt, Opd::Field("y"), Opd::Lit(Lit::I(1))))), vec![("x", None), ("y", Some(Lit::I(5)))]),
     ];
     for (fx, ev) in &witnesses { run_expr(ctx, &rt, fx, &[ev.clone()]); }
+    // witness of the repaired "filter dropped" defect: `x > 1 and y in z` on x = 0
+    run_expr(ctx, &rt,
+        &Fx::And(Box::new(x(Lit::I(1), Op::Gt)), Box::new(Fx::Other(Oth::In, Opd::Field("y"), Opd::Field("z")))),
+        &[vec![("x", Some(Lit::I(0))), ("y", Some(Lit::S("b".into()))), ("z", Some(Lit::S("abc".into())))]]);
 
     // 1. every atom `x op literal` and every other atom shape, against every value of its fields
     let mut atoms = atoms_for("x", &lits);
@@ -332,6 +363,7 @@ pub fn run(ctx: &mut Ctx, _name: &str) {
         x(Lit::I(1), Op::Eq), x(Lit::I(1), Op::Ne), x(Lit::F(F1_5), Op::Lt), x(Lit::F(F0_5), Op::Ge), x(Lit::S("m".into()), Op::Lt), x(Lit::B(true), Op::Eq),
         Fx::Cmp(Op::Gt, Opd::Field("y"), Opd::Lit(Lit::I(1))), Fx::Cmp(Op::Le, Opd::Field("y"), Opd::Lit(Lit::F(F1))), Fx::Cmp(Op::Eq, Opd::Field("y"), Opd::Lit(Lit::S("m".into()))),
         Fx::Cmp(Op::Lt, Opd::Field("x"), Opd::Field("y")), Fx::Atom(Opd::Field("y")), Fx::Cmp(Op::Ne, Opd::Lit(Lit::I(1)), Opd::Field("x")),
+        Fx::Other(Oth::In, Opd::Field("x"), Opd::Field("y")), Fx::Other(Oth::NotIn, Opd::Lit(Lit::S("a".into())), Opd::Field("y")),
     ];
     let mut d2: Vec<Fx> = Vec::new();
     for a in &red {
